@@ -152,3 +152,160 @@ func TestC05_Flips(t *testing.T) {
 		judge(rt, "c05.lossless", c05Check, c)
 	})
 }
+
+// c05.history / c05.cold: the lossless check directly after earlier calls in the same goroutine,
+// and in freshly started processes for every first-use order.
+var c05HistCheck = historyCheck(c05Check)
+
+func TestC05_History(t *testing.T) {
+	cov.Rule(c05Rule + " || each rapid case again directly after 1..5 earlier calls in the same goroutine (rejected and accepted validations, the sibling language, NewMnemonic from a source that ends part-way, wrong sizes, unsupported languages, seeds)")
+	k := 0
+	rapidCheck(t, func(rt *rapid.T) {
+		l := gen.Lang().Draw(rt, "lang")
+		e := gen.Entropy().Draw(rt, "ent")
+		h := &hist[losslessCase]{History: drawHistory(rt, l), Case: losslessCase{Lang: l.Name(), Entropy: e.Bytes, Shape: e.Shape, Flips: rapid.IntRange(0, 7).Draw(rt, "flips") == 0}}
+		c05Record(&h.Case)
+		recordHistory(h.History)
+		if k++; k%499 == 1 {
+			cov.Sample("c05.lossless@history", h)
+		}
+		judge(rt, "c05.lossless@history", c05HistCheck, h)
+	})
+}
+
+var c05ColdCheck = register("C05", "c05.cold", coldCheck("C05"))
+
+func TestC05_Cold(t *testing.T) {
+	cov.Rule(c05Rule + " || every language x 13 first-use patterns (what touched the language first in a freshly started process), then encodes of all five sizes and of their single-bit neighbours; the child's sentences must equal the reference encoding, the one sentence that decodes to the entropy")
+	item := 0
+	for _, l := range allLangs() {
+		for k, first := range coldFirstUse(l, 1) {
+			item++
+			if !mine(item) {
+				continue
+			}
+			var probe []op
+			for si, size := range ref.Sizes {
+				e := tableEntropies(size)[(int(l)*89+k*17+si)%2048].Bytes
+				probe = append(probe, op{Kind: "encode", Lang: int64(implLang[l]), Entropy: e})
+				f := append([]byte(nil), e...)
+				f[(k+si)%size] ^= 1 << uint(k%8)
+				probe = append(probe, op{Kind: "encode", Lang: int64(implLang[l]), Entropy: f, ExtraCap: 8})
+			}
+			c := &coldCase{History: first, Probe: probe}
+			cov.Eval(len(probe))
+			cov.Class("cold-start")
+			cov.NonTrivial("c05.cold", []byte(l.Name()), []byte{byte(k)})
+			if item == 3 {
+				cov.Sample("c05.cold", c)
+			}
+			judge(t, "c05.cold", c05ColdCheck, c)
+		}
+	}
+}
+
+// c05.via-source: the same statement for the generating entry point — the sentence NewMnemonic
+// returns decodes to exactly the bytes its source delivered, however the delivery was
+// fragmented or stalled ((0, nil) reads). A call that gives up on a stalling source with an
+// error returns no sentence and is not judged.
+type viaSourceCase struct {
+	Lang    string `json:"lang"`
+	Entropy hexb   `json:"entropy"`
+	// Cuts: sizes of the successive non-empty deliveries (the rest in one piece); Stall[i] empty
+	// (0, nil) reads are made before delivery i
+	Cuts  []int `json:"cuts,omitempty"`
+	Stall []int `json:"stall,omitempty"`
+}
+
+type stallReader struct {
+	data  []byte
+	cuts  []int
+	stall []int
+	i     int
+	empty int
+}
+
+func (r *stallReader) Read(p []byte) (int, error) {
+	if r.i < len(r.stall) && r.empty < r.stall[r.i] {
+		r.empty++
+		return 0, nil
+	}
+	k := len(p)
+	if r.i < len(r.cuts) && r.cuts[r.i] > 0 && r.cuts[r.i] < k {
+		k = r.cuts[r.i]
+	}
+	r.i++
+	r.empty = 0
+	if k > len(r.data) {
+		k = len(r.data)
+	}
+	copy(p, r.data[:k])
+	r.data = r.data[k:]
+	if k == 0 {
+		return 0, errCustom // asked for more than the case provides: the source is exhausted
+	}
+	return k, nil
+}
+
+var c05ViaSourceCheck = register("C05", "c05.via-source", func(c *viaSourceCase) error {
+	l := mustLang(c.Lang)
+	n := len(c.Entropy) / 4 * 3
+	src := &stallReader{data: append(append([]byte(nil), c.Entropy...), 0x99, 0x98, 0x97), cuts: c.Cuts, stall: c.Stall}
+	prev := bip39.VerifSwapRandSource(src)
+	got, err, p := implNew(n, implLang[l])
+	bip39.VerifSwapRandSource(prev)
+	sig := fmt.Sprintf("C05 via-source lang=%s size=%d", l, len(c.Entropy))
+	if p != nil {
+		return failf(sig+" panic", "NewMnemonic(%d, %s) panicked: %v", n, l, p)
+	}
+	stalled := false
+	for _, s := range c.Stall {
+		if s > 2 {
+			stalled = true
+		}
+	}
+	if err != nil && got == "" && stalled {
+		cov.Class("gave-up-on-stalling-source")
+		return nil
+	}
+	if err != nil {
+		return failf(sig+" error", "NewMnemonic(%d, %s) from a working source (cuts %v, empty reads %v) returned error %v", n, l, c.Cuts, c.Stall, err)
+	}
+	back, _, derr := ref.Decode(l, got)
+	if derr != nil {
+		return failf(sig+" undecodable", "sentence %q generated from source bytes %x does not decode: %v", got, []byte(c.Entropy), derr)
+	}
+	if !bytes.Equal(back, c.Entropy) {
+		return failf(sig, "the source delivered %x (cuts %v, empty reads before each delivery %v); NewMnemonic(%d, %s) returned %q, which decodes to %x: entropy bits the source delivered are ignored", []byte(c.Entropy), c.Cuts, c.Stall, n, l, got, back)
+	}
+	return nil
+})
+
+func TestC05_ViaSource(t *testing.T) {
+	cov.Rule(c05Rule + " || the generating entry point: NewMnemonic from scripted sources (fragmented deliveries, runs of 0..1000 empty reads before a delivery) must return a sentence that decodes to exactly the delivered bytes")
+	k := 0
+	rapidCheck(t, func(rt *rapid.T) {
+		l := gen.Lang().Draw(rt, "lang")
+		e := gen.Entropy().Draw(rt, "ent")
+		nc := rapid.IntRange(0, 4).Draw(rt, "deliveries")
+		c := &viaSourceCase{Lang: l.Name(), Entropy: e.Bytes}
+		for i := 0; i < nc; i++ {
+			c.Cuts = append(c.Cuts, rapid.IntRange(1, len(e.Bytes)).Draw(rt, "cut"))
+		}
+		for i := 0; i <= nc; i++ {
+			c.Stall = append(c.Stall, rapid.SampledFrom([]int{0, 0, 0, 1, 2, 3, 15, 16, 17, 99, 100, 101, 127, 128, 150, 255, 256, 1000}).Draw(rt, "empty-reads"))
+		}
+		cov.Eval(1)
+		cov.Class("via-source")
+		maxStall := 0
+		for _, s := range c.Stall {
+			maxStall = max(maxStall, s)
+		}
+		cov.ClassN("longest-run-of-empty-reads", maxStall)
+		cov.NonTrivial("c05.via-source", []byte(c.Lang), c.Entropy, []byte(fmt.Sprint(c.Cuts, c.Stall)))
+		if k++; k%499 == 1 {
+			cov.Sample("c05.via-source", c)
+		}
+		judge(rt, "c05.via-source", c05ViaSourceCheck, c)
+	})
+}
